@@ -4,6 +4,21 @@ import json
 
 CHECKS = {
 
+ "C17": dict(
+  engine="E1+E3",
+  technique="exhaustive enumeration of constructive format grammars / pattern x value products / call histories, plus stateless DFS over all thread interleavings of the real ValidatePattern under a controlled scheduler with a happens-before race oracle",
+  text="Inputs: per format a constructive grammar of valid instances enumerated completely to a size bound and single-point corruptions that are invalid by construction, each checked against the real ValidateFormat (plus ip <=> ipv4 xor ipv6); every regular expression of a small grammar x every string up to length 4 against regexp.MatchString. Histories: every call sequence up to length 3 over pattern triples must give history-independent verdicts. Schedules: 2-3 threads x 1-2 ValidatePattern calls on same/different patterns, ALL interleavings for two threads (preemption bound 2-3 otherwise) on the real code instrumented through go build -overlay (sync shim + shared-access hooks), with a vector-clock happens-before race oracle on the pattern cache, the invariant cache[p] compiles p, and a differential per-thread oracle.",
+  design_ref="DESIGN.md section 3 C17, section 2 E3/E4",
+  note="Strings whose validity is genuinely ambiguous under the named standard are neutral (listed in the evidence assumptions); 4+ threads only at bound 2; weaker-than-SC effects are subsumed by the happens-before oracle.",
+ ),
+ "C20": dict(
+  engine="E3",
+  technique="stateless DFS over thread interleavings (iterative preemption bounding) of the real runtime helpers under a cooperative scheduler, happens-before race oracle + differential per-thread oracle",
+  text="The goa runtime packages (pkg, http, http/middleware, middleware) are instrumented at check time from /repo's working tree (go build -overlay: sync/atomic shims as scheduling points, automatic read/write hooks on package-level variables, closure-captured variables, receiver fields and their map/slice elements). 2-3 virtual threads run 1-2 operations each (ErrorEncoder closures, ResponseEncoder, Muxer ServeHTTP/Vars/Handle/Use, request pipeline, ValidatePattern, samplers, MergeErrors); every schedule with <= 2 preemptions (thorough: bound 3 and all interleavings by sleep sets) is executed to completion and checked for happens-before data races, deadlock, and that each thread's observable result equals its result when run alone.",
+  design_ref="DESIGN.md section 3 C20, section 2 E3/E4",
+  note="Family A (runtime helpers) only in this revision; generated servers under the scheduler (family B) are exercised by a free-running -race pass, not decided. chi, net/http, encoding/* run as opaque steps and are trusted; blocking inside uninstrumented primitives (io.Pipe, channels, WebSocket I/O) is not explored.",
+ ),
+
  "C05": dict(
   engine="E2",
   technique="bounded exhaustive enumeration of (error design, returned error) pairs executed end to end against reference status/flag tables",
@@ -110,7 +125,8 @@ def main():
             "add_only": True,
         },
         "engines": [
-            {"name": "E2", "path": "/verif/e2", "serves_properties": sorted(k for k, v in CHECKS.items() if v["engine"] == "E2"), "kind_free_text": "design-space enumerator (Spec + DSL builder + independent reference model), generate-compile-link pipeline (fresh genworker process per design, stub/glue generation from the generated interfaces' AST, go build of the corpus, one driver binary per family), generic reflection driver over an in-memory HTTP wire"},
+            {"name": "E3", "path": "/verif/sched", "serves_properties": ["C17", "C20"], "kind_free_text": "CHESS-style cooperative scheduler + stateless DFS explorer with iterative preemption bounding and sleep sets, vector-clock happens-before race oracle, sync/atomic shims; E4 source instrumenter (/verif/instr) producing go build -overlay copies of goa packages with scheduling points and shared-access hooks"},
+            {"name": "E2", "path": "/verif/e2", "serves_properties": sorted(k for k, v in CHECKS.items() if "E2" in v["engine"]), "kind_free_text": "design-space enumerator (Spec + DSL builder + independent reference model), generate-compile-link pipeline (fresh genworker process per design, stub/glue generation from the generated interfaces' AST, go build of the corpus, one driver binary per family), generic reflection driver over an in-memory HTTP wire"},
             {"name": "E1", "path": "/verif/core", "serves_properties": sorted(CHECKS), "kind_free_text": "bounded exhaustive explorer plumbing: product/sequence/permutation/grouping enumerators, parallel sharding, violation signatures, known findings, 5x re-execution, replay files, evidence"},
         ],
         "checks": checks,
